@@ -64,6 +64,10 @@ def shard_seed(seed: int, shard: int, layer_index: int) -> int:
     return (seed * 1000003 + shard * 7919 + layer_index * 104729 + 17) % (2**31 - 1)
 
 
+class _StopShrinking(BaseException):
+    pass
+
+
 class LayerStats:
     def __init__(self):
         self.evals = 0
@@ -126,7 +130,7 @@ def _run_hyp_layer(prop, layer, n_examples, seed, tier, known, stats: LayerStats
 
     def body(case):
         if state["deadline"] is not None and time.monotonic() > state["deadline"]:
-            return  # stop the shrinker: nothing fails any more
+            raise _StopShrinking()  # a BaseException: Hypothesis lets it through, the best failure so far is kept
         case = unjson(jsonable(case))
         out = layer.execute(case)
         fresh = _classify(out, known, stats) if state["first"] is None else [
@@ -149,9 +153,9 @@ def _run_hyp_layer(prop, layer, n_examples, seed, tier, known, stats: LayerStats
     test = hypothesis.seed(seed)(test)
     try:
         test()
-    except ViolationFound:
+    except (ViolationFound, _StopShrinking):
         pass
-    except BaseException as exc:  # Flaky after the shrink deadline, health checks, harness bugs
+    except BaseException as exc:  # health checks, harness bugs
         if state["first"] is None:
             stats.harness_error = "".join(traceback.format_exception(type(exc), exc, exc.__traceback__))[-4000:]
     if state["first"] is not None:
@@ -184,6 +188,9 @@ def _worker(args):
     prop_id, tier, seed, shard, nshards = args
     try:
         signal.signal(signal.SIGINT, signal.SIG_IGN)
+        import faulthandler
+
+        faulthandler.register(signal.SIGUSR1, all_threads=True)
         mod = importlib.import_module(f"vf.props.{prop_id.lower()}")
         prop = mod.PROP
         known = load_known()
